@@ -868,7 +868,12 @@ def _const_ints(e):
     return None
 
 
-def _has_uniqueness_loop(g) -> bool:
+def _has_uniqueness_loop(g, repo=None) -> bool:
+    if repo is not None:
+        from .c15 import uniqueness_search
+
+        if uniqueness_search(repo, g) is not None:
+            return True
     for w in own_nodes(g.node):
         if isinstance(w, ast.While) and any(isinstance(c, ast.Compare) and any(isinstance(o, ast.In) for o in c.ops) for c in ast.walk(w.test)):
             return True
@@ -902,7 +907,7 @@ def rule_r9(ctx):
                 if not ok and isinstance(v, ast.Call):
                     d = dotted_of(v.func) or ""
                     g = f.module.functions.get(d) or (f.owner_class.methods.get(d.split(".")[-1]) if f.owner_class is not None and d.startswith("self.") else None)
-                    if g is not None and _has_uniqueness_loop(g):
+                    if g is not None and _has_uniqueness_loop(g, ctx.repo):
                         ok = True
                     else:
                         why = f"`{d}` has no `while <candidate> in <names>` loop"
